@@ -149,6 +149,14 @@ fn main() {
         let _ = std::fs::remove_dir_all(&scratch);
         std::process::exit(2);
     }
+    let uses_dev_full = matches!(args.id.as_str(), "C03" | "C06" | "C13");
+    if uses_dev_full {
+        if let Err(e) = cli::check_dev_full() {
+            eprintln!("qsim: harness precondition failed: {e}");
+            let _ = std::fs::remove_dir_all(&scratch);
+            std::process::exit(2);
+        }
+    }
     let code = match args.id.as_str() {
         "C03" => dispatch(&props::c03::C03, &env, &args),
         "C05" => dispatch(&props::c05::C05, &env, &args),
@@ -161,6 +169,23 @@ fn main() {
             2
         }
     };
+    let mut code = code;
+    if uses_dev_full {
+        if let Err(e) = cli::check_dev_full() {
+            // the code under test got at the device node itself (the harness only ever hands out
+            // symbolic links to it): put it back, and do not trust a clean verdict of this batch
+            eprintln!("qsim: /dev/full was damaged during the batch ({e}); restoring it");
+            unsafe {
+                let p = std::ffi::CString::new("/dev/full").unwrap();
+                libc::unlink(p.as_ptr());
+                libc::mknod(p.as_ptr(), libc::S_IFCHR | 0o666, libc::makedev(1, 7));
+                libc::chmod(p.as_ptr(), 0o666);
+            }
+            if code == 0 {
+                code = 2;
+            }
+        }
+    }
     let _ = std::fs::remove_dir_all(&scratch);
     std::process::exit(code);
 }
